@@ -682,6 +682,37 @@ def none_arith_rule(rep: Report, prog: Program, PROP: str, RULE: str) -> None:
                                 why = f"equality guard on self.{Y} (paired: initialised to None and assigned only together with self.{X})"
                     res[id(n)] = (n, X, why)
             EventsDomain(prog, ev_of, ob, kill_guards_on_call=False).run(fi)
+            # a private helper may rely on its callers: the field is guarded at every call site inside the class
+            for key_, (n, X, why) in list(res.items()):
+                if why or not fi.name.startswith("_") or fi.name.startswith("__") and fi.name.endswith("__"):
+                    continue
+                call_sites = [(cf, c) for cf in ci.methods.values() if cf is not fi for c in walk_no_nested(cf.node)
+                              if isinstance(c, ast.Call) and isinstance(c.func, ast.Attribute) and c.func.attr == fi.name and isinstance(c.func.value, ast.Name) and c.func.value.id == "self"]
+                if not call_sites:
+                    continue
+                all_ok = True
+                for cf, c in call_sites:
+                    found = {}
+
+                    def ob2(node, st, f, c=c, X=X, found=found):
+                        if not isinstance(node, ast.stmt) or "ok" in found:
+                            return
+                        hdr = [node]
+                        if isinstance(node, (ast.If, ast.While)):
+                            hdr = [node.test]
+                        elif isinstance(node, (ast.For, ast.AsyncFor)):
+                            hdr = [node.iter]
+                        elif isinstance(node, (ast.With, ast.AsyncWith, ast.Try, ast.FunctionDef, ast.AsyncFunctionDef)):
+                            hdr = []
+                        if any(x is c for h_ in hdr for x in ast.walk(h_)):
+                            a = f"self.{X}"
+                            found["ok"] = st.has_guard(f"{a} is not None", True) or st.has_guard(f"{a} is None", False) or st.has_guard(a, True) or st.has_guard(f"not {a}", False) \
+                                or ("set:" + X in st.events)
+                    EventsDomain(prog, ev_of, ob2, kill_guards_on_call=False).run(cf)
+                    if not found.get("ok"):
+                        all_ok = False
+                if all_ok:
+                    res[key_] = (n, X, f"private helper: self.{X} is guarded at each of its {len(call_sites)} call site(s)")
             for n, X, why in res.values():
                 n_sites += 1
                 what = f"{fi.qualname}: `{unparse(n)[:60]}` (self.{X})"
